@@ -44,13 +44,18 @@ pub(crate) fn optimize(
     let mut plans = Vec::with_capacity(36);
     let mut new_plan = Vec::with_capacity(36);
 
+    let mut first_iteration = 0usize;
     if enabled_modes.contains(mode) {
         plans.push(start_plan);
     } else {
         start_plan.add_switches(&mut plans, data.len(), true, enabled_modes);
+        if !data.is_empty() {
+            // the plans created by add_switches() have already processed the first character
+            first_iteration = 1;
+        }
     }
 
-    for iteration in 0usize.. {
+    for iteration in first_iteration.. {
         let mut at_end = false;
         let use_as_start = iteration == 0;
 
